@@ -68,3 +68,32 @@ static errno_t shim_ctime_s(char *dest, rsize_t dmax, const time_t *timer, size_
     }
     return _ctime_s_chk(dest, dmax, timer, destbos);
 }
+
+/* gets_s: `inp`/`inplen` is what stdin holds for this call (the model reads it from the region instead).  The harness reads its
+   op lines from its own FILE (hx.c keeps it in `ops`), so stdin can be swapped for a pipe holding the bytes.
+   returns 0 when gets_s returned dest, errno when it returned NULL (-1: NULL with errno 0, i.e. end of file) */
+extern char *_gets_s_chk(char *restrict dest, rsize_t dmax, const size_t destbos);
+static FILE *shim_saved_stdin;
+static FILE *shim_pipe_file;
+static void shim_restore_stdin(void) {
+    if (shim_saved_stdin) { stdin = shim_saved_stdin; shim_saved_stdin = NULL; }
+    if (shim_pipe_file) { fclose(shim_pipe_file); shim_pipe_file = NULL; }
+}
+static errno_t shim_gets_s(char *dest, rsize_t dmax, size_t destbos, const char *inp, size_t inplen) {
+    int fds[2];
+    shim_restore_stdin();
+    if (inplen > 60000) shim_die("gets_s input too long for a pipe");
+    if (pipe(fds)) shim_die("pipe");
+    if (inplen && (!inp || write(fds[1], inp, inplen) != (ssize_t)inplen)) shim_die("write");
+    close(fds[1]);
+    shim_pipe_file = fdopen(fds[0], "r");
+    if (!shim_pipe_file) shim_die("fdopen");
+    shim_saved_stdin = stdin;
+    stdin = shim_pipe_file;
+    errno = 0;
+    char *r = _gets_s_chk(dest, dmax, destbos);
+    int e = errno;
+    shim_restore_stdin();
+    if (r && r != dest) shim_die("gets_s returned a foreign pointer");
+    return r ? 0 : (e ? e : -1);
+}
